@@ -156,6 +156,9 @@ def main():
             {c: (t["summary"], t["failed_after_retry"]) for c, t in v.get("existing_tests", {}).items()},
             {c: r.get("verdict") for c, r in det.items()} if "error" not in det else det))
         sys.stdout.flush()
+    # free the scratch pair of this property (disk is limited)
+    ws = "/tmp/det/%s" % pid
+    sh("git -C /verif worktree remove --force %s/verif; git -C /repo worktree remove --force %s/repo; rm -rf %s" % (ws, ws, ws))
 
 
 if __name__ == "__main__":
